@@ -59,10 +59,18 @@ package limit
 //@   hyp rate >= 1 && burst >= 0 && 0 <= tokens && tokens <= burst && ttl*rate >= burst && now - ts >= ttl
 //@   goal min(burst, tokens+(now-ts)*rate) == burst
 
+// aligned periods end at the multiples of the period on the LOCAL clock (unix time plus the zone offset): the key lives for
+// what is left of the current local period
 //@ func (h *PeriodLimit) calcExpireSeconds
 //@   property C03
 //@   requires h.period >= 1
+//@   ghost at entry: ux = 0
+//@   ghost at entry: off = 0
+//@   ghost at after Unix#0: ux = ret
+//@   ghost at after Zone#0: off = ret1
 //@   ensures 1 <= result && result <= h.period
+//@   ensures_local implies(h.align, result == h.period - (ux + off) % h.period)
+//@   ensures implies(!h.align, result == h.period)
 //@   modifies nothing
 
 //@ func (h *PeriodLimit) TakeCtx
